@@ -307,8 +307,7 @@ def _drained_counterexample(conds, ev_path, bounds) -> str:
         except Free:
             k = src(x)
             if k not in free:
-                free[k] = None
-                raise
+                free[k] = False
             return free[k]
 
     # a finite bound: with an infinite one the pause test never fires and the paused state is unreachable
